@@ -326,7 +326,7 @@ def gen_C10(rng, tier):
             a, b = rng.choice(live), rng.choice(live)
             k = rng.random()
             if k < 0.3: r = p.bind('%s %s' % (rng.choice(SAFE_UN + ['exp']), a))
-            elif k < 0.6: r = p.bind('%s %s %s' % (rng.choice(['add', 'sub', 'mul', 'elmax']), a, b))
+            elif k < 0.6: r = p.bind('%s %s %s' % (rng.choice(['add', 'sub', 'mul']), a, b))
             elif k < 0.7 and shape:
                 r = p.bind('patch %s %s %s' % (a, ranges([(0, 1)]), p.bind('slice %s %s' % (b, ranges([(0, 1)])))))
             elif k < 0.8 and shape: r = p.bind('sumalong %s 0' % a); live.append(r); snap(); continue
